@@ -58,11 +58,12 @@ def errorScore : DialErr → Int
 
 /-- `is_global_multiaddr` on the addresses the harness uses: `ip4 n` with `n ≥ 256` stands for a
 public address, smaller `n` for `10.0.0.n` (`0.0.0.0` for 0), `n ≥ 99990` for the boundary targets
-(broadcast, loopback, multicast, link-local: none of them global), `ip6 n` for a unique-local address,
-DNS names count as public. -/
+(99999 broadcast, 99998 loopback, 99996 link-local: not global; 99997 = the multicast address 224.0.0.1,
+which `IpNetwork::is_global` counts as global — observed on the real code), `ip6 n` for a unique-local
+address, DNS names count as public. -/
 def isGlobal : Multiaddr → Bool
   | [] => false
-  | .ip4 n :: _ => decide (256 ≤ n ∧ n < 99990)
+  | .ip4 n :: _ => decide ((256 ≤ n ∧ n < 99990) ∨ n = 99997)
   | .ip6 _ :: _ => false
   | .dns _ :: _ => true
   | .dns4 _ :: _ => true
